@@ -8,7 +8,10 @@ In-process correspondence (harness/inproc/h_timeout.c):
                    load / overload check, graceful state, all three event handlers
 End-to-end correspondence (tools/ltv/e2e.py): the same scenario language interpreted in real time against
 the real lighttpd binary over TCP (timeouts 1-3 s, compared with the model's prediction +- one tick and
-with an independent bound oracle), plus HTTP/2 idle / stalled-stream scenarios predicted through ct2.
+with an independent bound oracle), plus HTTP/2 idle / stalled-stream scenarios predicted through ct2,
+HTTP/2 431 / 413 / graceful-download runs predicted through h2h / h2d, and the effective connection limit
+measured on the real server (mcl).
+  h2d / h2h        h2_recv_data() on a real h2 connection and stream, http_request_parse_header() per field
 """
 import os, re, select, signal, socket, time
 from concurrent.futures import ThreadPoolExecutor
@@ -17,25 +20,38 @@ from .. import e2e
 
 MANIFEST = dict(
     text="Lean 4 theorems over an executable model of connection lifetime (h1_check_timeout / "
-         "h2_check_timeout as they are; a connection automaton for connections.c / h1.c / response.c between "
-         "two rests of the main loop; a server automaton for lim_conns / cur_fds watermarks / sockets_disabled / "
-         "accept loop / graceful state driven by scripted clients): every reachable state is consistent with all "
-         "connections at rest; a connection whose client makes no progress is shut down by the first sweep past "
-         "its deadline and released after the linger timeout, for every schedule of sweeps, wake-ups, signals "
-         "and actions of all other clients (proved for the single connection and lifted to the whole server); "
-         "connections <= max-connections for every client script; overload recovery at the next loop iteration; "
-         "431 / 413 instead of buffering; graceful stop closes the listen sockets, leaves in-flight work alone "
-         "and exits at the deadline; model tied to the code by running the real, unmodified server_main_loop() "
-         "in virtual time (in-process, ASan/UBSan, three event handlers) and the real binary in real time on "
-         "the same scenario language, plus exhaustive direct calls of the two timeout functions",
+         "h2_check_timeout / h2_recv_data / the header-size test as they are; a connection automaton for "
+         "connections.c / h1.c / response.c between two rests of the main loop; a server automaton for lim_conns / "
+         "cur_fds watermarks / sockets_disabled / accept loop / graceful state driven by scripted clients).  PROVED "
+         "ON THE MODEL, HTTP/1.x: every reachable state is consistent with all connections at rest; a connection "
+         "whose client makes no progress is shut down by the first sweep past its deadline and released after "
+         "the linger timeout, for every schedule of sweeps, wake-ups, signals and actions of all other clients; "
+         "the answer to a request (431 / 413 / 200) is the one read off its sizes, for every way of cutting it "
+         "into pieces, and what is buffered between events is bounded by the limits; connections <= "
+         "max-connections for every client script; in every reachable state nobody waits in the listen queue "
+         "while a slot is free and descriptors are below the low watermark (so overload is not permanent PROVIDED "
+         "the descriptors the server holds by itself are below 80% of max-fds - the condition is necessary, witness "
+         "given); after the signal: listen sockets closed, deadline fixed, no new client, in-flight connections "
+         "untouched before the deadline, loop returns within the timeout over every continuation.  PROVED ON THE "
+         "MODEL, HTTP/2 (partial): the timeout sweep acts exactly when idle / a stream is stalled; 431 iff the "
+         "header list exceeds the limit; DATA buffered <= max-request-size + 64 kB + one frame.  TESTED ONLY (no "
+         "theorem): that in-flight responses arrive complete (the model carries no response bytes), the HTTP/2 "
+         "path from the sweep's verdict to GOAWAY / close / slot release, the three event handlers.  Model tied to "
+         "the code by running the real, unmodified server_main_loop() in virtual time (in-process, ASan/UBSan, "
+         "three event handlers), direct calls of the timeout / limit functions, and the real binary in real "
+         "time on the same scenario language",
     note="trusted: Lean kernel, hand-written model validated by exhaustive calls of h1_check_timeout / "
-         "h2_check_timeout and by trace comparison of the unmodified main loop against scripted clients; the "
-         "in-process scenarios use AF_UNIX sockets and a scripted dynamic handler (no TLS, no backends: a hung "
-         "backend is outside the property, clients do not pipeline), HTTP/2 glue only end-to-end; kernel "
-         "accept-queue behaviour and real scheduling latency outside the model (real-time bounds checked with "
-         "a tolerance of one tick + 2 s slack)",
-    tech="Lean 4 proof (invariants over event schedules, refinement of one connection inside the server) + "
-         "extracted constants + in-process virtual-time and real-time end-to-end correspondence",
+         "h2_check_timeout / h2_recv_data and by trace comparison of the unmodified main loop against scripted "
+         "clients; the in-process scenarios use AF_UNIX sockets and a scripted dynamic handler (no TLS, no "
+         "backends: a hung backend is outside the property; clients do not pipeline; equal-size chunks without "
+         "extensions or trailers; request heads have a handful of lines, so the second 431 reason - 8191 or more "
+         "header lines - is out of reach); the "
+         "server-start clamp of max-connections is tied end-to-end only; kernel accept-queue behaviour and real "
+         "scheduling latency outside the model (real-time bounds checked with a tolerance of one tick + 2 s "
+         "slack; the real loop needs up to 3 further iterations to release a connection it closes gracefully)",
+    tech="Lean 4 proof (invariants over event schedules, refinement of one connection inside the server, "
+         "reachable-state invariants for admission and graceful stop) + extracted constants (regex, exercised by "
+         "the correspondence) + in-process virtual-time and real-time end-to-end correspondence",
     ref="6/C13")
 
 ST = dict(connect=0, req_start=1, read=2, req_end=3, read_post=4, handle_req=5, resp_start=6, write=7,
@@ -590,6 +606,36 @@ def server_conf(cfg, h2=False):
     return s
 
 
+def listener_inode(port):
+    """inode of the socket listening on 127.0.0.1:port, or None"""
+    want = "0100007F:%04X" % port
+    try:
+        with open("/proc/net/tcp") as f:
+            for ln in f:
+                if want not in ln:
+                    continue
+                p = ln.split()
+                if len(p) > 9 and p[1] == want and p[3] == "0A":
+                    return p[9]
+    except OSError:
+        pass
+    return None
+
+
+def pid_has_inode(pid, inode):
+    target = "socket:[%s]" % inode
+    try:
+        for fd in os.listdir("/proc/%d/fd" % pid):
+            try:
+                if os.readlink("/proc/%d/fd/%s" % (pid, fd)) == target:
+                    return True
+            except OSError:
+                pass
+    except OSError:
+        pass
+    return False
+
+
 def start_server(bd, conf):
     """a started server, or (None, why).  The port is chosen by bind(0)/close and may be taken by another
     test server before lighttpd binds it: retry on a fresh port"""
@@ -599,11 +645,18 @@ def start_server(bd, conf):
         setup_docroot(srv)
         try:
             srv.start()
-            time.sleep(0.15)
-            if srv.alive():
-                return srv, None
-            # (start() saw the port answering, but that was somebody else's server: ours lost the bind)
-            raise RuntimeError("lighttpd exited at start: " + srv.logs()[-300:])
+            # start() returns as soon as SOMETHING answers on the port - on a machine shared with other test
+            # runs that may be somebody else's server which took the port first (ours is then about to fail
+            # with EADDRINUSE).  Proceed only once the listening socket on the port belongs to our process.
+            end = time.time() + 10
+            while time.time() < end:
+                if not srv.alive():
+                    raise RuntimeError("lighttpd exited at start: " + srv.logs()[-300:])
+                ino = listener_inode(srv.port)
+                if ino is not None and pid_has_inode(srv.proc.pid, ino):
+                    return srv, None
+                time.sleep(0.05)
+            raise RuntimeError("the port is held by another process")
         except Exception as e:           # noqa
             err = "server did not start: %s" % e
             try:
@@ -1453,11 +1506,19 @@ def run(ctx):
     ctx.differential("check_timeout/load_check(direct calls)", [exe], "life",
                      gen_ct1(ctx) + gen_ct2(ctx) + gen_lc(ctx), oracle_ct, classify_ct)
     ctx.differential("h2 limits(direct calls)", [exe], "life", gen_h2lim(ctx), oracle_ct, classify_ct)
-    n_sc = 5000 if ctx.quick else 60000
+    n_sc = 4000 if ctx.quick else 60000
     n_adm = 200 if ctx.quick else 2500
     sc_lines = list(FIXED_SC) + [gen_scenario(ctx.rng) for _ in range(n_sc)] + \
         [gen_admission(ctx.rng) for _ in range(n_adm)]
-    ctx.differential("main-loop scenarios(virtual time)", [exe], "life", sc_lines, oracle_sc, classify_sc)
+    # every scenario is a fork + exit of an instrumented process: on a machine whose cores are taken these
+    # contend in the kernel and 16 workers are SLOWER than one (measured: 91 scenarios/s with 1 worker, 28/s
+    # with 16 at load 40) — use as many workers as there are idle cores
+    ncpu = C.NCPU
+    try:
+        C.NCPU = max(1, min(ncpu, int(ncpu - os.getloadavg()[0])))
+        ctx.differential("main-loop scenarios(virtual time)", [exe], "life", sc_lines, oracle_sc, classify_sc)
+    finally:
+        C.NCPU = ncpu
     ctx.exhaustive = False
     ctx.notes.append("ct1: exhaustive over state x FDEVENT_IN x request_count x version x timestamps in a "
                      "7-second window x idle settings (quick: 20%% sample) + random incl. 2^31 / 2^40 clocks; "
@@ -1574,7 +1635,13 @@ def run(ctx):
                 "statuses reached in a scenario) for the scenario streams; (state, interest, keep-alive, outcome) "
                 "for the direct calls")
     ctx.assumptions += [
-        "in-process scenarios: AF_UNIX stream sockets, one scripted dynamic handler; clients do not pipeline",
+        "in-process scenarios: AF_UNIX stream sockets, one scripted dynamic handler; clients do not pipeline; "
+        "chunked bodies in equal-size chunks without extensions or trailers; no Expect: 100-continue; one listen "
+        "socket; global (not per-condition) timeouts; request heads of a handful of lines (the 431 for 8191 or "
+        "more header lines is not reached)",
+        "the descriptors the server holds apart from client connections are below the low watermark (80% of "
+        "max-fds): otherwise server_overload_check never re-enables the listen sockets (misconfiguration, witness "
+        "in Props/C13.lean)",
         "the once-per-second sweep runs whenever the monotonic second changes (server_main_loop polls with a "
         "timeout of at most 1 s)",
         "real-time bounds are checked with one tick (+2 s scheduling slack) of tolerance"]
